@@ -317,6 +317,12 @@ def _check_globals_and_nondeterminism(prog: Program, res: Result):
                 continue
             n_funcs += 1
             local_stores = {x.id for x in ast.walk(fi.node) if isinstance(x, ast.Name) and isinstance(x.ctx, ast.Store)} | set(fi.params())
+            from ..model import module_container_mutations
+
+            for node_, loc_, g_, how_ in module_container_mutations(prog, fi):
+                if loc_ != g_:  # direct mutations are reported below under their own key
+                    res.violation("R13.3", f"{q}|mutates {g_} via {loc_}", prog.loc(fi, node_), q,
+                                  f"module-level object {g_} is mutated in place through the local alias {loc_} ({how_}): the change persists into later calls")
             for n in ast.walk(fi.node):
                 if isinstance(n, ast.Global):
                     res.violation("R13.3", f"{q}|global {','.join(n.names)}", prog.loc(fi, n), q, f"'global {', '.join(n.names)}': module state is rebound by a function")
@@ -464,6 +470,27 @@ def _check_nominal_height(prog: Program, res: Result):
 
 M = "ghedesigner.manager"
 VARIANTS = [
+    Variant("module-level month table patched in place through a local alias (seeded C08_b)", "break",
+            [("ghedesigner.ground_loads", """    if leap_year:
+        num_days = [31, 31, 29, 31, 30, 31, 30, 31, 31, 30, 31, 30, 31]
+    else:
+        num_days = [31, 31, 28, 31, 30, 31, 30, 31, 31, 30, 31, 30, 31]
+    return num_days[md]""", """    num_days = DAYS_IN_MONTH
+    if leap_year:
+        num_days[2] = 29
+    return num_days[md]"""),
+             ("ghedesigner.ground_loads", "def monthdays(month, year):", "DAYS_IN_MONTH = [31, 31, 28, 31, 30, 31, 30, 31, 31, 30, 31, 30, 31]\n\n\ndef monthdays(month, year):")], "R13.3"),
+    Variant("module-level month table copied before it is patched", "benign",
+            [("ghedesigner.ground_loads", """    if leap_year:
+        num_days = [31, 31, 29, 31, 30, 31, 30, 31, 31, 30, 31, 30, 31]
+    else:
+        num_days = [31, 31, 28, 31, 30, 31, 30, 31, 31, 30, 31, 30, 31]
+    return num_days[md]""", """    num_days = DAYS_IN_MONTH
+    if leap_year:
+        num_days = list(num_days)
+        num_days[2] = 29
+    return num_days[md]"""),
+             ("ghedesigner.ground_loads", "def monthdays(month, year):", "DAYS_IN_MONTH = [31, 31, 28, 31, 30, 31, 30, 31, 31, 30, 31, 30, 31]\n\n\ndef monthdays(month, year):")]),
     Variant("simulate() accumulates hp_eft across calls", "break",
             [(GHX, "        self.hp_eft = hp_eft\n        self.dTb = d_tb\n\n        return max(hp_eft), min(hp_eft)", "        self.hp_eft.extend(hp_eft)\n        self.dTb = d_tb\n\n        return max(hp_eft), min(hp_eft)")], "R13.1"),
     Variant("g-function memoised on the object without a key", "break",
